@@ -546,6 +546,12 @@ func (env *LEnv) get(k *LVal) *LVal {
 }
 
 func (env *LEnv) getSimple(k *LVal) *LVal {
+	// The package lookup at the end of the walk is made through the environment
+	// the lookup was asked of: an unbound symbol that has no position of its
+	// own (a gensym, a symbol built in Go) is then located at the form that
+	// environment is evaluating, not at whatever the root environment -- where
+	// the walk ends -- happens to be evaluating.
+	asked := env
 	for {
 		v, ok := env.scope[k.Str]
 		if ok {
@@ -555,7 +561,7 @@ func (env *LEnv) getSimple(k *LVal) *LVal {
 			env = env.parent
 			continue
 		}
-		return env.packageGet(k)
+		return asked.packageGet(k)
 	}
 }
 
